@@ -18,3 +18,5 @@ func vrfAddRequest(rawQuery string, multipartBody bool) *http.Request {
 func vrfAddRan(s *vrfSvc) bool { return vrfAddInvoked > 0 }
 
 func vrfAddedRoot(s *vrfSvc) cid.Cid { return vrfTestCid(1) }
+
+func vrfExpectedAddRoot(layout string) cid.Cid { return vrfTestCid(1) }
